@@ -142,10 +142,14 @@ func c07DirectBody(r *Run) {
 		return
 	}
 	codec := c07Codec(seg.lz4)
-	if ok, _ := c07Accepts(codec, seg.wire); !ok {
-		r.Violate(P, "control", "control-rejected", "the unaltered segment is rejected")
+	// the unaltered segment first (control); its delivered payload is kept, as an application would keep it
+	// while the connection goes on: what is refused later must not show up in it
+	control, cerr := codec.DecodeSegment(bytes.NewReader(seg.wire))
+	if cerr != nil || control == nil || control.Payload == nil {
+		r.Violate(P, "control", "control-rejected", "the unaltered segment is rejected: %v", cerr)
 		return
 	}
+	delivered := control.Payload.UncompressedData
 	alt := append([]byte(nil), seg.wire...)
 	hdrBytes := seg.hdrBits / 8
 	desc := ""
@@ -183,6 +187,8 @@ func c07DirectBody(r *Run) {
 	}
 	if ok, detail := c07Accepts(codec, alt); ok {
 		r.Violate(P, "rejected", c07Class(p), "segment (lz4=%v, %d payload bytes, self-contained=%v) altered by %s was accepted: %s", seg.lz4, len(seg.payload), seg.self, desc, detail)
+	} else if !bytes.Equal(delivered, seg.payload) {
+		r.Violate(P, "rejected", fmt.Sprintf("refused-bytes-in-earlier-payload:lz4=%d", p["lz4"]), "the altered segment (%s) was refused, but the payload delivered for the intact segment decoded just before it on the same codec (%d bytes) no longer equals what was sent: refused bytes reached a delivered payload", desc, len(seg.payload))
 	}
 }
 
@@ -451,6 +457,11 @@ func c07Enumerate(w *Worker) {
 				alt := append([]byte(nil), seg.wire...)
 				body := alt[hdrBytes:]
 				orig := seg.wire[hdrBytes:]
+				// the payload delivered for the intact segment is kept while altered ones are refused
+				var delivered []byte
+				if control, err := codec.DecodeSegment(bytes.NewReader(seg.wire)); err == nil && control != nil && control.Payload != nil {
+					delivered = control.Payload.UncompressedData
+				}
 				evalFlips := func(p map[string]int, flips ...int) {
 					for _, b := range flips {
 						body[b/8] ^= 1 << uint(b%8)
@@ -458,6 +469,10 @@ func c07Enumerate(w *Worker) {
 					ok, _ := c07Accepts(codec, alt)
 					for _, b := range flips {
 						body[b/8] = orig[b/8]
+					}
+					if !ok && delivered != nil && !bytes.Equal(delivered, seg.payload) {
+						ok = true // re-derived (and classified) by the direct scenario
+						delivered = nil
 					}
 					if ok {
 						q := map[string]int{}
